@@ -80,8 +80,10 @@ Proof.
   split; [intros [-> ->]; reflexivity | intro H; inversion H; auto].
 Qed.
 
-Definition bget_aput := aget_aput pos_eqb.
-Definition nget_aput := aget_aput N.eqb.
+Lemma bget_aput k v m k' : bget (aput k v m) k' = if pos_eqb k k' then v else bget m k'.
+Proof. reflexivity. Qed.
+Lemma nget_aput k v m k' : nget (aput k v m) k' = if (k =? k')%N then v else nget m k'.
+Proof. reflexivity. Qed.
 
 (* ---------- lgroups ---------- *)
 Lemma lg_get_cons l v g l' : lg_get ((l, v) :: g) l' = if (l =? l')%N then v else lg_get g l'.
@@ -197,6 +199,19 @@ Qed.
 Lemma dcount_nil i l : dcount i l [] = 0. Proof. reflexivity. Qed.
 Lemma dcount_app i l a b : dcount i l (a ++ b) = dcount i l a + dcount i l b.
 Proof. unfold dcount. rewrite filter_app, app_length, Nat2Z.inj_add. reflexivity. Qed.
+Lemma d_add_snd d x : snd (d_add d x) = snd d. Proof. reflexivity. Qed.
+Lemma d_del_fst d x : fst (d_del d x) = fst d. Proof. reflexivity. Qed.
+Lemma dcount_d_add i l d x : dcount i l (fst (d_add d x)) = dcount i l (fst d) + (if (fst x =? l)%N && idx_match i (snd x) then 1 else 0).
+Proof.
+  unfold d_add. cbn [fst]. rewrite dcount_app. unfold dcount at 2. cbn [filter].
+  destruct ((fst x =? l)%N && idx_match i (snd x)); reflexivity.
+Qed.
+Lemma dcount_d_del i l d x : dcount i l (snd (d_del d x)) = dcount i l (snd d) + (if (fst x =? l)%N && idx_match i (snd x) then 1 else 0).
+Proof.
+  unfold d_del. cbn [snd]. rewrite dcount_app. unfold dcount at 2. cbn [filter].
+  destruct ((fst x =? l)%N && idx_match i (snd x)); reflexivity.
+Qed.
+
 Lemma dcount_nonneg i l a : 0 <= dcount i l a. Proof. unfold dcount. apply Nat2Z.is_nonneg. Qed.
 Lemma count_key_notin k l : ~ In k l -> count_key k l = 0.
 Proof.
